@@ -21,6 +21,9 @@ PROPERTY = "C14"
 
 MESHES = {
     "A2": lambda: Z.template_2d("TRI3", 2, distort=True),
+    "A2m": lambda: Z.template_2d("TRI3", 2, distort=False),  # same connectivity and sizes as A2, other coordinates
+    "A3m": lambda: Z.template_3d("TETRA4", 1, size=(1.3, 0.8, 1.1)),
+    "S1m": lambda: Z.template_1d("SEG2", 3, graded=True, L=1.2),
     "B2": lambda: Z.template_2d("QUAD4", 2, distort=True),
     "A3": lambda: Z.template_3d("TETRA4", 1),
     "B3": lambda: Z.template_3d("HEXA8", [2, 1, 1]),
@@ -234,7 +237,9 @@ class Scenario:
             y[:, 0] = x[:, 0] * (1 + 2e-6)
             mesh.coord = y
         elif op == "replacemesh":
-            key = self.mesh1 if cfg["mesh"] == self.mesh0 else self.mesh0
+            # cycle: mesh0 -> same-size morph of mesh0 (same Nn, Ne, connectivity; other coordinates) -> mesh1 (other sizes) -> mesh0
+            cyc = [self.mesh0] + ([self.mesh0 + "m"] if self.mesh0 + "m" in MESHES else []) + [self.mesh1]
+            key = cyc[(cyc.index(cfg["mesh"]) + 1) % len(cyc)] if cfg["mesh"] in cyc else self.mesh0
             cfg["mesh"] = key
             cfg["coords"] = None
             cfg["meshkeys"].append(key)
@@ -583,6 +588,13 @@ def cases(tier, seed):
         if name in ("elastic", "thermal", "beam") or tier == "thorough":
             for seq in itertools.product(ops, repeat=d2):
                 out.append({"kind": "history", "scn": name, "ops": list(seq), "regime": "end"})
+    if tier == "quick":
+        # mesh-history interplay at depth 3 with an observation after every operation (reduced alphabet)
+        sub = ["solve_save", "replacemesh", "setiter0", "rotate", "rebc"]
+        for name in ("elastic", "thermal", "beam"):
+            ops = [o for o in sub if o in SCENARIOS[name]().ops()]
+            for seq in itertools.product(ops, repeat=3):
+                out.append({"kind": "history", "scn": name, "ops": list(seq), "regime": "each"})
     # one model shared by two simulations
     for name in ("elastic", "thermal", "elastic_trisot"):
         mops = [o for o in SCENARIOS[name]().model_ops if not o.endswith("_field")]
